@@ -33,7 +33,7 @@ func init() {
 	register(&Property{
 		ID:    "C29",
 		Level: "exploration",
-		Rule: "cases = 2..8 swamps with names from seeded part pools (unicode, dots, dashes, spaces, long parts) on islands 1..3, <=40 operations (Set / Delete / CompactSwamp / Destroy / idle eviction / restart / plant a legacy-format file), then ReadSwampName on every .hyd file and an explorer scan + listing; " +
+		Rule: "cases (a quarter of them starting on the crash image of the first swamp file's creation) = 2..8 swamps with names from seeded part pools (unicode, dots, dashes, spaces, long parts) on islands 1..3, <=40 operations (Set / Delete / CompactSwamp / Destroy / idle eviction / restart / plant a legacy-format file), then ReadSwampName on every .hyd file and an explorer scan + listing; " +
 			"non-trivial = at least one file was re-opened and appended to, or compacted, before the lookup; distinct = hash of (names, op kinds, final set)",
 		Gen: genC29,
 		Run: runC29,
@@ -53,6 +53,14 @@ func genC29(seed uint64, tier string) Case {
 	nsw := 2 + r.intn(7)
 	c.Cfg["nsw"] = int64(nsw)
 	c.Cfg["names"] = int64(r.next() >> 1)
+	if r.chance(1, 4) {
+		// the run starts on the disk image a crash left behind while the first swamp's file was being created
+		// (cut: how many of the file's first operations - create, header, name, first block, ... - made it to the disk;
+		// tear: how much of the next write did)
+		c.Cfg["crashnew"] = 1
+		c.Cfg["crash_cut"] = int64(r.intn(5))
+		c.Cfg["crash_tear"] = int64(r.intn(4))
+	}
 	n := 4 + r.intn(37)
 	for i := 0; i < n; i++ {
 		sw := int64(r.intn(nsw))
@@ -110,12 +118,64 @@ func runC29(t *testing.T, c Case) (res Result) {
 	reopened := false
 	legacy := map[string]bool{}
 	var kinds []string
+	var crashImg *simdisk.Disk
+	if c.cfg("crashnew", 0) == 1 {
+		// phase 1, in a bubble of its own: a server creates the first swamp's file; then the image of a crash inside
+		// that creation is materialised from the disk's operation log
+		d0 := simdisk.New()
+		runSim(t, &Sched{Seed: c.Seed ^ 0xc4a5}, func() {
+			srv := startServer(d0, 2, wi)
+			cl := &gwClient{srv: srv, island: sws[0].island, timeout: 120 * time.Second}
+			for _, s := range []string{"sanctA", "sanct-B", "s.c", "legacy"} {
+				cl.register(s+"/*/*", false, 2, wi)
+			}
+			val := "v"
+			cl.set(sws[0].name, []*hydrapb.KeyValuePair{{Key: "k0", StringVal: &val}}, true, true)
+			simrt.Sleep(1500 * time.Millisecond)
+			srv.stop(5 * time.Minute)
+		})
+		log := d0.Log()
+		for j, op := range log {
+			if op.Kind == simdisk.OpCreate && strings.HasSuffix(op.Path, ".hyd") {
+				cut := j + 1 + int(c.cfg("crash_cut", 0))
+				if cut > len(log) {
+					cut = len(log)
+				}
+				torn := -1
+				if cut < len(log) && log[cut].Kind == simdisk.OpWrite && len(log[cut].Data) > 1 {
+					if f := int(c.cfg("crash_tear", 0)); f > 0 {
+						torn = len(log[cut].Data) * f / 4
+					}
+				}
+				crashImg = d0.ImageAt(cut, torn)
+				res.count("runs_started_on_a_crash_image_of_a_file_creation", 1)
+				break
+			}
+		}
+	}
 	out := runSim(t, c.Sched, func() {
 		disk := simdisk.New()
+		if crashImg != nil {
+			disk = crashImg
+		}
 		srv := startServer(disk, 2, wi)
 		cl := &gwClient{srv: srv, island: 1, timeout: 120 * time.Second}
 		for _, s := range []string{"sanctA", "sanct-B", "s.c", "legacy"} {
 			cl.register(s+"/*/*", false, 2, wi)
+		}
+		if crashImg != nil {
+			// whatever the crash left of the first swamp: after this write it holds k0
+			val := "v"
+			cl.island = sws[0].island
+			if _, err := cl.set(sws[0].name, []*hydrapb.KeyValuePair{{Key: "k0", StringVal: &val}}, true, true); err != nil {
+				r := violation("set_error_after_crash_recovery", "Set(%s) on the recovered server: %v", sws[0].name, err)
+				v = &r
+				return
+			}
+			sws[0].keys["k0"] = true
+			// let the write reach the file (which recreates a torn remnant) before anything else is asked of the swamp:
+			// an explicit CompactSwamp on the bare remnant fails with EOF, which is not what this property is about
+			simrt.Sleep(1500 * time.Millisecond)
 		}
 		closedOnce := false
 		bulkCtr := 0
